@@ -38,7 +38,7 @@ def _props(P):
         "C15": front("TestC15", (4, 1500, 300), (8, 20000, 1200)),
         "C12": P("kernelq", "TestC12", (4, 1500, 300), (16, 6000, 1800)),
         "C18": P("pollt", "TestC18", (4, 1500, 300), (16, 6000, 1200)),
-        "C19": P("route", "TestC19", (4, 20000, 300), (16, 100000, 1200)),
+        "C19": P("route", "TestC19", (4, 20000, 300), (16, 100000, 1200), also=[dict(pkg="route", test="TestC19b", quick=(2, 150, 300), thorough=(8, 1500, 1200), env={})]),
         "C16": store("TestC16", (4, 300, 300), (16, 1200, 2400)),
         "C17": store("TestC17", (4, 400, 300), (16, 2500, 2400)),
         "C20": proc("TestC20", (150, 420), (8, 1500, 3000)),
